@@ -2,7 +2,13 @@
 #define DQ_STUB_REFS 1
 #define H_LANE_TYPE DISPATCH_SOURCE_KEVENT_TYPE
 #include "contracts/common/dq_common.h"
-struct dispatch_source_s H_ds; struct dispatch_source_refs_s H_dr; struct dispatch_source_type_s H_type;
+struct dispatch_source_s H_ds; struct dispatch_source_type_s H_type;
+#ifdef H_DR_TIMER_SIZED   /* the refs object is as large as a timer's refs, so the timer-only fields can be looked at */
+union { struct dispatch_source_refs_s r; struct dispatch_timer_source_refs_s t; } H_dru;
+#define H_dr (H_dru.r)
+#else
+struct dispatch_source_refs_s H_dr;
+#endif
 struct dispatch_continuation_s H_handler;
 static void h_src_wakeup(dispatch_queue_class_t dq, dispatch_qos_t qos, dispatch_wakeup_flags_t flags)
 { (void)qos; __verif_event(EV_WAKEUP, 0, dq._dq, flags, 0); }
